@@ -6,6 +6,7 @@
 //!   harness oracle <prop>                stdin: `<id> <case>` lines -> ORACLE lines (replay)
 mod dump;
 mod round3;
+mod round4;
 mod alloc;
 mod cases;
 mod exec;
@@ -92,6 +93,12 @@ pub fn oracles_for(prop: &str, c: &Case, impl_result: &str) -> Vec<Verdict> {
             if prop == "C17" {
                 v.push(extra::oracle_c17(c));
             }
+            if prop == "C07" {
+                match c {
+                    Case::Read { shp, shx, .. } | Case::Rhist { shp, shx, .. } => v.push(round4::oracle_hint_no_panic(shp, shx.as_deref())),
+                    _ => {}
+                }
+            }
         }
         ("C09", Case::Whist { shx, ending, ops }) => v.push(oracle_c09(*shx, ending, ops)),
         ("C09", Case::Wfault { shx, dest, fault, persistent, ops }) => {
@@ -120,6 +127,17 @@ pub fn oracles_for(prop: &str, c: &Case, impl_result: &str) -> Vec<Verdict> {
         ("C16", Case::Ring(d, r, ps)) => v.push(oracle_c16(&Ctor::PolygonRings(*d, vec![(*r, ps.clone())]))),
         ("C18", Case::Size(c)) => v.push(oracle_c18(c)),
         ("C18", Case::Write { ctors, .. }) => v.push(round3::oracle_record_lengths(ctors)),
+        ("C19", Case::Read { target, shp, .. }) if (target == "generic" || target == "Point") && shp.len() >= 140 => {
+            // the second record's type field holds an invalid code: that code is reported
+            let code = i32::from_le_bytes([shp[136], shp[137], shp[138], shp[139]]);
+            let items: Vec<&str> = impl_result.split(" ; ").collect();
+            let want = format!("err shapetype {}", code);
+            v.push(if ESRI_TABLE.iter().any(|r| r.0 == code) || items.get(2) == Some(&want.as_str()) {
+                Verdict::pass()
+            } else {
+                Verdict::fail("record-code-error", format!("a record whose type field holds {} read as {}: {:?}, expected `{}`", code, target, items.get(2), want))
+            });
+        }
         ("C19", Case::Code(c)) => {
             v.push(oracle_c19(*c));
             v.push(oracle_c19_file(*c));
@@ -142,12 +160,13 @@ struct Budget {
     max_shapes: usize,
     max_parts: usize,
     max_points: usize,
+    big_every: usize,
 }
 fn budget(tier: &str, quick: usize, thorough: usize) -> Budget {
     if tier == "thorough" {
-        Budget { files: thorough, max_shapes: 12, max_parts: 6, max_points: 12 }
+        Budget { files: thorough, max_shapes: 12, max_parts: 6, max_points: 12, big_every: 0 }
     } else {
-        Budget { files: quick, max_shapes: 5, max_parts: 4, max_points: 6 }
+        Budget { files: quick, max_shapes: 5, max_parts: 4, max_points: 6, big_every: 0 }
     }
 }
 
@@ -155,7 +174,11 @@ fn budget(tier: &str, quick: usize, thorough: usize) -> Budget {
 fn for_each_file<F: FnMut(&mut Out, &str, Dim, Vec<Ctor>, &mut Rng)>(out: &mut Out, rng: &mut Rng, stats: &mut Stats, b: &Budget, allow_nan: bool, min_shapes: usize, mut f: F) {
     for i in 0..b.files {
         let (family, d) = ALL13[i % 13];
-        let n = min_shapes + rng.below(b.max_shapes + 1 - min_shapes);
+        let mut n = min_shapes + rng.below(b.max_shapes + 1 - min_shapes);
+        if b.big_every > 0 && i % b.big_every == b.big_every - 1 {
+            // now and then a file with many (small) shapes
+            n = 8 + rng.below(40);
+        }
         let ctors = {
             let mut g = Gen { rng, stats, max_parts: b.max_parts, max_points: b.max_points };
             g.shapes(family, d, n, allow_nan)
@@ -170,7 +193,10 @@ fn cases_for(prop: &str, tier: &str, seed: u64, out: &mut Out) {
     let mut stats = Stats::default();
     match prop {
         "C01" | "C02" | "C04" | "C05" | "C13" => {
-            let b = budget(tier, if prop == "C13" { 60 } else { 260 }, if prop == "C13" { 400 } else { 6000 });
+            let mut b = budget(tier, if prop == "C13" { 60 } else { 260 }, if prop == "C13" { 400 } else { 6000 });
+            if prop != "C13" {
+                b.big_every = 10;
+            }
             let allow_nan = prop != "C05";
             for_each_file(out, &mut rng, &mut stats, &b, allow_nan, if prop == "C02" || prop == "C04" || prop == "C05" { 0 } else { 1 }, |out, _fam, _d, ctors, rng| {
                 let c = Case::Write { shx: true, ctors: ctors.clone() };
@@ -276,6 +302,12 @@ fn cases_for(prop: &str, tier: &str, seed: u64, out: &mut Out) {
                     let id = out.oracle_only_id();
                     out.verdict(&id, &format!("scenario big-index {}", n), round3::oracle_big_index(n));
                 }
+                let id = out.oracle_only_id();
+                out.verdict(&id, "scenario far-records", round3::oracle_far_records());
+                for (n_old, n_new) in [(6usize, 2usize), (3, 3), (2, 5), (9, 1)] {
+                    let id = out.oracle_only_id();
+                    out.verdict(&id, &format!("scenario reused-destinations {} {}", n_old, n_new), round4::oracle_reused_destinations(n_old, n_new));
+                }
             }
             if prop == "C01" {
                 // parts longer than any block a writer could reasonably buffer
@@ -309,6 +341,10 @@ fn cases_for(prop: &str, tier: &str, seed: u64, out: &mut Out) {
                 }
             }
             if prop == "C02" {
+                for n in [1usize, 3, 20] {
+                    let id = out.oracle_only_id();
+                    out.verdict(&id, &format!("scenario panic-drop {}", n), round4::oracle_panic_drop(n));
+                }
                 for (n_old, n_new) in [(40usize, 3usize), (7, 7), (12, 0)] {
                     let id = out.oracle_only_id();
                     out.verdict(&id, &format!("scenario path-overwrite {} {}", n_old, n_new), extra::oracle_path_overwrite(n_old, n_new));
@@ -322,11 +358,51 @@ fn cases_for(prop: &str, tier: &str, seed: u64, out: &mut Out) {
             }
             let id = out.oracle_only_id();
             out.verdict(&id, "scenario far-records", round3::oracle_far_records());
+            for chunk in [1usize, 5, 13, 4096] {
+                let id = out.oracle_only_id();
+                out.verdict(&id, &format!("scenario gap-chunked {}", chunk), round4::oracle_gap_chunked(chunk));
+            }
+            let id = out.oracle_only_id();
+            out.verdict(&id, "scenario empty-index", round4::oracle_empty_index());
+            // the same records in reverse physical order, driven by operation histories
+            let (pf, px) = round4::permuted_polylines(4);
+            for ops in [vec![ROp::It(99)], vec![ROp::Nth(3), ROp::It(99)], vec![ROp::Seek(2), ROp::It(1), ROp::It(99)], vec![ROp::It(2), ROp::Nth(0), ROp::It(99), ROp::Count]] {
+                run_and_judge(out, &Case::Rhist { target: "generic".into(), shp: pf.clone(), shx: Some(px.clone()), ops });
+            }
         }
         "C06" => {
             {
                 let id = out.oracle_only_id();
                 out.verdict(&id, "scenario typed-nth-failure", round3::oracle_typed_nth_failure());
+                let id = out.oracle_only_id();
+                out.verdict(&id, "scenario read-vs-readas", round4::oracle_read_vs_readas());
+            }
+            // files whose header does not tell what the first record is: no record at all, a null
+            // record first, a header of another type than the records
+            for (fam, d) in ALL13.iter() {
+                let ctors = {
+                    let mut g = Gen { rng: &mut rng, stats: &mut stats, max_parts: 2, max_points: 3 };
+                    g.shapes(fam, *d, 2, false)
+                };
+                let shapes: Vec<Any> = ctors.iter().map(|c| build(c).unwrap()).collect();
+                let (shp, _) = write_files(false, &shapes);
+                let mut empty = shp[..100].to_vec();
+                empty[24..28].copy_from_slice(&50i32.to_be_bytes());
+                let mut lead = shp[..100].to_vec();
+                lead.extend_from_slice(&[0, 0, 0, 1, 0, 0, 0, 2, 0, 0, 0, 0]);
+                lead.extend_from_slice(&shp[100..]);
+                let total = (lead.len() / 2) as i32;
+                lead[24..28].copy_from_slice(&total.to_be_bytes());
+                let mut other = shp.clone();
+                let oc: i32 = if *fam == "point" { 3 } else { 1 };
+                other[32..36].copy_from_slice(&oc.to_le_bytes());
+                stats.hit("typed.header-silent-files");
+                for f in [empty, lead, other] {
+                    for req in TYPE_NAMES {
+                        run_and_judge(out, &Case::Read { target: req.to_string(), shp: f.clone(), shx: None });
+                    }
+                    run_and_judge(out, &Case::Read { target: "generic".into(), shp: f, shx: None });
+                }
             }
             let reps = if tier == "thorough" { 12 } else { 1 };
             for rep in 0..reps {
@@ -382,6 +458,29 @@ fn cases_for(prop: &str, tier: &str, seed: u64, out: &mut Out) {
                 stats.hit("mut.many-unbacked-parts");
                 run_and_judge(out, &Case::Read { target: "generic".into(), shp: m, shx: None });
             }
+            // many parts that ARE there and hold no points: 4 input bytes per part
+            for (code, nparts) in [(3i32, 6000usize), (15, 6000), (5, 3000), (23, 3000)] {
+                stats.hit("mut.many-empty-parts");
+                run_and_judge(out, &Case::Read { target: "generic".into(), shp: round4::many_empty_parts(code, nparts), shx: None });
+            }
+            // a header length that ends inside a record / declares far more than there is
+            {
+                let shapes: Vec<Any> = (0..4).map(|q| Any::Point(shapefile::Point::new(q as f64, 1.0))).collect();
+                let (shp, shx) = write_files(true, &shapes);
+                for words in [51i32, 57, 60, 63, 64, 65, 77, 91, 1 << 22, i32::MAX] {
+                    let mut f = shp.clone();
+                    f[24..28].copy_from_slice(&words.to_be_bytes());
+                    stats.hit("mut.header-length-inside-record");
+                    run_and_judge(out, &Case::Read { target: "generic".into(), shp: f.clone(), shx: None });
+                    run_and_judge(out, &Case::Rhist { target: "generic".into(), shp: f, shx: Some(shx.clone()), ops: vec![ROp::It(2), ROp::Hint, ROp::It(99), ROp::Hint] });
+                }
+            }
+            if prop == "C17" {
+                for words in [1i32 << 22, i32::MAX, 1 << 28] {
+                    let id = out.oracle_only_id();
+                    out.verdict(&id, &format!("scenario collect-peak {}", words), round4::oracle_collect_peak(words));
+                }
+            }
         }
         "C09" | "C10" => {
             extra::cases_whist(prop, tier, &mut rng, &mut stats, out);
@@ -394,6 +493,10 @@ fn cases_for(prop: &str, tier: &str, seed: u64, out: &mut Out) {
                     out.verdict(&id, &format!("scenario custom-rejected {}", kind), round3::oracle_custom_rejected(kind));
                 }
                 extra::cases_dbf_c10(tier, &mut stats, out);
+                for n in [0usize, 1, 2, 5] {
+                    let id = out.oracle_only_id();
+                    out.verdict(&id, &format!("scenario write-shapes-rejected {}", n), round4::oracle_write_shapes_rejected(n));
+                }
             }
         }
         "C11" => extra::cases_crash(tier, &mut rng, &mut stats, out),
@@ -401,6 +504,8 @@ fn cases_for(prop: &str, tier: &str, seed: u64, out: &mut Out) {
         "C15" => {
             extra::cases_rhist(tier, &mut rng, &mut stats, out);
             extra::cases_pairs_c15(tier, &mut stats, out);
+            let id = out.oracle_only_id();
+            out.verdict(&id, "scenario typed-nth-failure", round3::oracle_typed_nth_failure());
         }
         "C08" => extra::cases_dbf(tier, &mut rng, &mut stats, out),
         "C20" => extra::cases_geo(tier, &mut rng, &mut stats, out),
@@ -506,6 +611,10 @@ fn cases_for(prop: &str, tier: &str, seed: u64, out: &mut Out) {
                     run_and_judge(out, &Case::Size(c));
                 }
             }
+            {
+                let id = out.oracle_only_id();
+                out.verdict(&id, "scenario size-after-failed-write", round4::oracle_size_after_failed_write());
+            }
             // files of several shapes of different sizes: every record header and index entry
             // announces the length of its own record
             for i in 0..(if tier == "thorough" { 400 } else { 39 }) {
@@ -544,6 +653,22 @@ fn cases_for(prop: &str, tier: &str, seed: u64, out: &mut Out) {
                     out.verdict(&id, &format!("scenario header-code-version {} {:08x}", c, v), round3::oracle_header_code_any_version(c, vb));
                 }
             }
+            // the same through a source that returns 1, 2 or 3 bytes per read call
+            for c in codes.iter().cloned().filter(|c| c.wrapping_shr(8) != 0 || (*c >= -3 && *c <= 40)).take(300) {
+                for chunk in [1usize, 2, 3] {
+                    let id = out.oracle_only_id();
+                    out.verdict(&id, &format!("scenario header-code-chunked {} {}", c, chunk), round4::oracle_header_code_chunked(c, chunk));
+                }
+            }
+            // an invalid code in a RECORD, read generically and as each of the 13 concrete types
+            for c in [77i32, 2, -1, 257, i32::MIN, 32, 6, 1 << 24, 29] {
+                let f = round4::bad_record_code_file(c);
+                stats.hit("code.bad-record-code");
+                run_and_judge(out, &Case::Read { target: "generic".into(), shp: f.clone(), shx: None });
+                for req in TYPE_NAMES {
+                    run_and_judge(out, &Case::Read { target: req.to_string(), shp: f.clone(), shx: None });
+                }
+            }
             if tier == "thorough" {
                 // every 32-bit value, oracle only (the correspondence samples above validate the translator)
                 let mut accepted = 0u64;
@@ -568,7 +693,15 @@ fn cases_for(prop: &str, tier: &str, seed: u64, out: &mut Out) {
                 out.stat("exhaustive_codes", 1u64 << 32);
             }
         }
-        "C03" => {}
+        "C03" => {
+            // one part longer than any block a reader could reasonably buffer (independent encoding)
+            for code in [3i32, 13, 23, 8, 18, 28] {
+                for n in [1025usize, 1500, 2049, 3000] {
+                    let id = out.oracle_only_id();
+                    out.verdict(&id, &format!("scenario long-part {} {}", code, n), round4::oracle_long_part(code, n));
+                }
+            }
+        }
         _ => {
             out.lines.push(format!("ERROR unknown property {}", prop));
         }
